@@ -19,11 +19,19 @@ pub mod c09;
 #[cfg(kani)]
 pub mod c10;
 #[cfg(kani)]
+pub mod c11;
+#[cfg(kani)]
 pub mod c12;
 #[cfg(kani)]
 pub mod c13;
 #[cfg(kani)]
 pub mod c14;
+#[cfg(kani)]
+pub mod c15;
+#[cfg(kani)]
+pub mod c16;
+#[cfg(kani)]
+pub mod c17;
 #[cfg(kani)]
 pub mod c18;
 #[cfg(kani)]
@@ -32,6 +40,8 @@ pub mod c19;
 pub mod c20;
 #[cfg(kani)]
 pub mod c21;
+#[cfg(kani)]
+pub mod c22;
 #[cfg(kani)]
 pub mod c23;
 #[cfg(kani)]
